@@ -75,31 +75,41 @@ MEMBERS = ['C07_plane_intersection_on_both',
            'C07_flipped_sense_lattice_error',
            'C07_flipped_set_lattice_error',
            'C07_base_vectors_outcomes',
+           'C07_base_vectors_by_shape',
            'C07_hex_lattice_developed',
            'C07_develop_lattice_hex_is_tied',
            'C07_rhp_is_C03_rhp_linked',
            'C07_hex_base_vectors_trcl_linked']
 TRUSTED = [
-    'hand-written model coq/C07/Model.v (modelled, tied by execution only)',
-    'binary64 evaluation: the theorems are over R; the model is run at '
+    'hand-written models coq/C07/Model.v, ModelDevelop.v (tied by execution '
+    'to the functions of /repo; C07.rhp additionally proved equal to C03\'s '
+    'model of it, LinkC03.v)',
+    'binary64 evaluation: the theorems are over R; the models are run at '
     'PrimFloat only for the ties (1e-9 scaled tolerance, planeSide exact)',
     'harness: generators (c07_gen.py), mcnpref/t4eval oracles, impl.T4File '
-    'reader, PEG shim replacing TatSu',
+    'reader, PEG shim replacing TatSu, the run-time wrapper of props/c06.py '
+    'around CellConversion.develop_lattice and the spy on '
+    'hexLatticeBaseVectors, c02_cov.LineCov',
+    'C06\'s model and theorems of develop_lattice_with (C07_hex_lattice_'
+    'developed), C04\'s model of Transformation.transformation and its frame '
+    'lemmas (C07_hex_base_vectors_trcl_linked), C03\'s model of MacroBodies.rhp '
+    '(C07_rhp_is_C03_rhp_linked): imported read-only, audited in the same '
+    'Print Assumptions',
 ]
 ASSUMPTIONS = [
-    'C07_hex_base_vectors is about hexLatticeBaseVectors over the reals on '
-    'plane lists that carry the six sides of a strictly convex centrally '
-    'symmetric hexagon in one of the 48 MCNP listing orders, listed sense = '
-    'side of the centre; inputs outside this family (and the behaviour at '
-    'binary64) are covered by the ties and the sweep only',
-    'of develop_lattice only the test of the FILL ranges (domain_check) and '
-    'latticeVector are modelled; the rest (Fortran order of the array, own '
-    'universe, universe 0, composition with TRCL / fill transformations, '
-    'cell_transform) is shared with C06 and only swept here (whole LAT=2 '
-    'decks against the reference MCNP semantics)',
-    'extract_surfaces / the RHP macrobody expansion that produce the '
-    '(plane, side) list from the deck are not modelled; swept through the '
-    'decks',
+    'the main family (C07_hex_base_vectors, C07_rhp*_lattice_vectors, '
+    'C07_hex_lattice_developed, the error theorems about flipped senses and '
+    'caps) is about plane lists that carry the six sides of a strictly convex '
+    'centrally symmetric hexagon in one of the 48 MCNP listing orders; for '
+    'every other plane list C07_base_vectors_outcomes / C07_base_vectors_by_'
+    'shape give the possible outcomes (which one occurs is decided by '
+    'parallelism, the number and the shape of the accepted intersections), '
+    'not a geometric description of the input',
+    'nothing is proved about binary64 rounding (planeSide has no tolerance)',
+    'surfaces carrying a TRn, cell_transform / pot_transform and the writer '
+    'are outside the C07 models: a TRCL/TRn prism is covered by the linked '
+    'invariance theorem on the plane frames (C04) and observed at the call '
+    'of develop_lattice (tie:develophex), the rest by the deck sweep only',
 ]
 HEADER = ('From Coq Require Import List Arith ZArith Bool PrimFloat.\n'
           'From T4V Require Import Base.Scalar C07.Model C07.Exec.\n')
@@ -744,6 +754,26 @@ def domain_deck(nvec, bounds, n_el):
     return text
 
 
+def closed_tour(pairs):
+    '''The accepted pairs form one closed tour of the six positions (every
+    position in exactly two pairs, all connected): ProofsErrors.closed_tour.'''
+    deg = {i: 0 for i in range(6)}
+    for i, j in pairs:
+        deg[i] += 1
+        deg[j] += 1
+    if any(d != 2 for d in deg.values()):
+        return False
+    reach, front = {0}, [0]
+    while front:
+        cur = front.pop()
+        for i, j in pairs:
+            for a, b in ((i, j), (j, i)):
+                if a == cur and b not in reach:
+                    reach.add(b)
+                    front.append(b)
+    return len(reach) == 6
+
+
 def finding_class(_conv, _meta):
     """Narrow classes of findings/C07.txt: none is open (the class
     six_planes_trivial_range of the previous round was repaired by /repo
@@ -950,6 +980,25 @@ def _run(res, tier, seed, proofs_ok):
         if num % (10 if quick else 5) == 0 or fault is not None:
             six = surfs[:6] if rng.random() < 0.9 else surfs
             sout = guarded(LT.hexSortSides, six)
+            if sout[0] == 'ok' and len(six) == 6 and len(surfs) in (6, 8) \
+                    and six == surfs[:6]:
+                # C07_base_vectors_by_shape on the implementation: closed tour
+                # of the accepted pairs <=> the loop of hexVertices ends
+                tour = closed_tour([k for k, v in sout[1].items()
+                                    if v is not None])
+                allowed = (('ok', 'EZeroDiv') if tour else ('ELoop', 'EZeroDiv'))
+                got_cls = out[1] if out[0] == 'err' else 'ok'
+                res.count(f'shape: {"closed tour" if tour else "no tour"} -> '
+                          + got_cls)
+                if got_cls not in allowed:
+                    res.violation('correspondence',
+                                  'C07_base_vectors_by_shape: the accepted '
+                                  f'pairs {"form" if tour else "do not form"} '
+                                  f'a closed tour but the outcome is {got_cls}',
+                                  {'input': {'surfaces': surfs},
+                                   'theorem_or_correspondence':
+                                   'C07_base_vectors_by_shape'},
+                                  found_input=False)
             if sout[0] == 'err' or finite(sout[1]):
                 sort_cases.append(cpair(clist(csurf(s) for s in six),
                                         cres(sout, cadj)))
